@@ -394,3 +394,12 @@ func State(gs map[string]any, site, line, col, off int, text []byte, st map[stri
 	}
 	return nil
 }
+
+// InitVal decodes an initial state value given to the InitState option:
+// "C:a,b" is a Cloner value, anything else a string.
+func InitVal(s string) any {
+	if strings.HasPrefix(s, "C:") {
+		return &CVal{Vals: strings.Split(s[2:], ",")}
+	}
+	return s
+}
